@@ -540,6 +540,8 @@ func init() {
 		in := fr.i
 		if in.sch == nil {
 			in.sch = newScheduler(in, int(asInt64(args[0])))
+		} else {
+			in.sch.preempts = int(asInt64(args[0]))
 		}
 		return nil
 	}
